@@ -36,9 +36,11 @@ import (
 
 func init() {
 	registerObserver([]string{"C21"}, func(s *Sim) Observer { return newMinBalObs(s) })
-	nontrivialFor["C21"] = func(s *Sim) bool {
-		return s.stats["c21.accounts_checked_block"] > 0 && s.stats["c21.at_exact_min_balance"] > 0 && s.stats["c21.probe_below_rejected"] > 0
-	}
+}
+
+// Nontrivial implements NontrivialJudge.
+func (o *minBalObs) Nontrivial(s *Sim) bool {
+	return s.stats["c21.accounts_checked_block"] > 0 && s.stats["c21.at_exact_min_balance"] > 0 && s.stats["c21.probe_below_rejected"] > 0
 }
 
 // mbCosts is the independent min-balance formula.
